@@ -8,6 +8,21 @@ ALL = [f'C{i:02d}' for i in range(1, 21)]
 
 # property -> (level text, level note, technique, design section)
 CHECKS = {
+    'C08': (
+        'Lean 4 theorems over any commutative ring: for orthogonal idempotent eigen-projectors (kernel-decided for the tables extracted from '
+        'the running code, Obligations/C03) the matrices of G**t1 and G**t2 multiply to that of G**(t1+t2) and G**t G**-t is the identity, '
+        'for all exponents and shifts (C08_eigen_powers_add, C08_eigen_inverse); ProductOfSums.expand denotes the product set '
+        '(C08_cv_expand); a controlled operation acts as its target exactly on the basis states whose control digits are selected and '
+        'as the identity elsewhere, for any control predicate, axes and qudit shape (C08_controlled_apply). T2: powers / inverses / '
+        'powers of powers of 13 families; ControlledGate, controlled_by and controlled() shortcuts with ints / value sets / sums of '
+        'products / qutrit controls / nesting against the Lean block matrix; phase_by against Z-conjugation through the Lean interpreter; '
+        'commutes, ==, approx_eq, equal_up_to_global_phase (incl. exponents differing by candidate periods), has_stabilizer_effect and '
+        'trace_distance_bound checked against the matrices.',
+        'Trusted: Lean kernel; harness + drivers; predicate soundness (commutes / equality / stabilizer effect / trace-distance bound) '
+        'and phase_by are decided per generated case, not proved for all inputs (named partial in DESIGN.md).',
+        'Lean 4 proof (spectral calculus, control-value semantics, controlled action) + differential correspondence',
+        'DESIGN.md §3 C08',
+    ),
     'C03': (
         'Lean 4 theorems for all exponents t and global shifts s over any commutative ring with a lawful phase map (so over the complex '
         'numbers with the real exponential): the closed form printed in the docstring of XPowGate, YPowGate, ZPowGate, HPowGate, CZPowGate, '
